@@ -751,7 +751,9 @@ pub fn check_c13(rep: &mut Report) {
         let (want_files, want_cmds): (Vec<(Vec<PathBuf>, Option<Vec<String>>)>, Vec<(String, PathBuf)>) = match l.name {
             "inherited-output-same-project" => (vec![(vec![r.join("src/a.txt")], None), (vec![r.join("pout")], Some(vec![".o".into()]))], vec![("cat pv.txt".into(), r.clone())]),
             "inherited-output-imported-project" => (vec![(vec![r.join("src/a.txt")], None), (vec![r.join("libdir/src")], Some(vec![".txt".into()]))], vec![("cat v.txt".into(), r.join("libdir"))]),
-            _ => (vec![], vec![("cat v.txt".into(), r.join("pa")), ("cat v.txt".into(), r.join("pb"))]),
+            "inherited-output-inside-own-directory" => (vec![(vec![r.join("src")], None), (vec![r.join("src/gen")], Some(vec![".txt".into()]))], vec![]),
+            "two-producers-same-command-text" => (vec![], vec![("cat v.txt".into(), r.join("pa")), ("cat v.txt".into(), r.join("pb"))]),
+            other => panic!("MACHINERY: no expectation written for layout {}", other),
         };
         rep.add_u64("transitions", 1);
         if files != want_files || cmds != want_cmds {
@@ -761,6 +763,7 @@ pub fn check_c13(rep: &mut Report) {
         let want_deps: Vec<&str> = match l.name {
             "inherited-output-same-project" => vec!["p"],
             "inherited-output-imported-project" => vec!["lib::p"],
+            "inherited-output-inside-own-directory" => vec!["p"],
             _ => vec!["pa::p", "pb::p"],
         };
         if deps != want_deps {
